@@ -16,7 +16,9 @@ func vNondetFileInfo(pathN int) FileInfo {
 	}
 	n := verifNondetChoice(pathN) + 1
 	ext := verifNondetStringN(n)
-	return &vFileInfo{path: ext, ext: ext}
+	// Path() (the path inside the module) always differs from ExternalPath() (what the user sees), so that a printer
+	// or key that reads the wrong one cannot go unnoticed.
+	return &vFileInfo{path: "in/" + ext + ".p", ext: ext}
 }
 
 // vNondetAnnotation builds a real *fileAnnotation with symbolic fields. Line/column values range over lo..hi.
